@@ -52,6 +52,16 @@ func judgeCase(raw json.RawMessage) (bool, string) {
 		return false, "bad case: " + err.Error()
 	}
 	ok, msg, _ := judge(&c)
+	if !ok && strings.Contains(msg, "altered the caller's module") && ev.ExcludedQuiet("c14.clone-shares-module") {
+		// open finding C14-1 masks whatever else the case shows: look behind it
+		save := xrun.SkipModuleUnchanged
+		xrun.SkipModuleUnchanged = true
+		ok2, msg2, _ := judge(&c)
+		xrun.SkipModuleUnchanged = save
+		if !ok2 {
+			return false, msg2
+		}
+	}
 	return ok, msg
 }
 
